@@ -169,6 +169,15 @@ def rule_subproblem_over_the_box(eng, rep, rule="C06-6.regularised-subproblem-is
             return True if res and all(r is True for r in res) else None
         if isinstance(e, ast.Call) and isinstance(e.func, ast.Name) and e.func.id == "list" and e.args:
             return feasible_set(fi, cfg, at, e.args[0], depth - 1)
+        if isinstance(e, ast.Call) and id(e) in eng.res.calls and len(eng.res.calls[id(e)].targets) == 1 and depth > 0:
+            # a helper that returns the feasible set: every return of it must be one
+            t = eng.res.calls[id(e)].targets[0]
+            if not t.is_lambda:
+                tcfg = eng.cfg(t)
+                res = [feasible_set(t, tcfg, r, r.value, depth - 1) for r in eng.prog.own_nodes(t) if isinstance(r, ast.Return) and r.value is not None]
+                if any(r is False for r in res):
+                    return False
+                return True if res and all(r is True for r in res) else None
         return None
 
     for ci in eng.calls_to(sf.fid):
@@ -191,7 +200,7 @@ def rule_subproblem_over_the_box(eng, rep, rule="C06-6.regularised-subproblem-is
                     "the projector list `%s` handed to ctrsbox_sfista can be empty / lack the box projector on some path: the regularised step is then computed over the trust region only and ignores the bounds" % short(e, 40))
         else:
             rep.unknown(rule, site, "cannot tell what the projector list `%s` contains" % short(e, 40))
-    rep.require_count(rule, "ctrsbox_sfista call sites outside trust_region.py", n, 2)
+    rep.require_count(rule, "ctrsbox_sfista call sites outside trust_region.py", n, 1)      # (today 4 copies of one call)
 
 
 def run(eng, rep):
